@@ -112,8 +112,11 @@ def make_data(desc, F, args):
     else:
         g = Graph()
     i = 0
+    # term kind of the data: "I" symbolic IRIs; "L" symbolic integer literals in subject and object position (rdflib
+    # graphs accept literal subjects), so that the falsy term (k = 0) can flow through bindings, joins and scoping code
+    mk = F.lit if desc.get("kind") == "L" else F.iri
     for pn, gn in desc["data"]:
-        s, o = F.iri(args[i]), F.iri(args[i + 1])
+        s, o = mk(args[i]), mk(args[i + 1])
         i += 2
         lst = data["default"] if gn == "d" else data["named"][gn]
         if not tin((s, pn, o), lst):
@@ -333,12 +336,14 @@ def obligations(tier, seed):
     rnd = random.Random(seed)
     obs = []
 
-    def add(name, group, nconst, form, data, budget, proj="*", template=None, distinct=False, graphs=False):
+    def add(name, group, nconst, form, data, budget, proj="*", template=None, distinct=False, graphs=False, kind="I"):
         dd = [(d, "d") for d in data] if not graphs else data
         text = R.render(form, group, proj, template, distinct)
         tag = "".join(p for p, _ in dd) if not graphs else ",".join("%s@%s" % x for x in dd)
+        if kind != "I":
+            tag += "-" + kind
         obs.append(dict(oid="q/%s/%s/%s" % (form, name, tag), family="query",
-                        desc={"name": name, "group": group, "nconst": nconst, "form": form, "text": text, "proj": proj,
+                        desc={"name": name, "group": group, "nconst": nconst, "form": form, "text": text, "proj": proj, "kind": kind,
                               "template": template, "distinct": distinct, "data": [list(x) for x in dd], "dataset": graphs},
                         sig=[("x%d" % i, "i") for i in range(2 * len(dd) + nconst)], budget=budget))
 
@@ -353,6 +358,9 @@ def obligations(tier, seed):
         if tier == "thorough":
             add(name, group, nc, "select", data_shapes(group, 3)[0] + ["q" if "urn:q" in R.r_group(group) else "p"], 1500)
         ds = data_shapes(group, 2)[0]
+        add(name, group, nc, "select", ds, 300, kind="L")
+        if tier == "thorough":
+            add(name, group, nc, "select", data_shapes(group, 3)[0], 900, kind="L")
         add(name, group, nc, "ask", ds, 200)
         vs = R.vars_in_scope(group)
         template = [[V(vs[0]), Q, V(vs[-1])], [V(vs[-1]), P, V(vs[0])]]
@@ -375,6 +383,7 @@ def obligations(tier, seed):
         shapes = data_shapes(group, 2)
         for ds in (shapes[:1] if tier == "quick" else shapes):
             add(name, group, nc, "select", ds, 300)
+        add(name, group, nc, "select", shapes[0], 300, kind="L")
         if tier == "thorough":
             add(name, group, nc, "select", data_shapes(group, 3)[0], 900)
     return obs
@@ -384,7 +393,7 @@ def bounds(tier):
     return {"query": "%d single-operator templates (BGP, join of groups, OPTIONAL +/- FILTER, UNION, MINUS, FILTER =,!=,bound,!,&&,||,"
                      "sameTerm, EXISTS/NOT EXISTS, BIND, VALUES incl. UNDEF, sub-SELECT, DISTINCT, projection) x 4 variable-sharing patterns, "
                      "%d GRAPH templates over a Dataset, all %d depth-2 nestings; data: single operators n=2 and n=3 symbolic triples%s, "
-                     "nestings n=2%s, per predicate/graph shape; SELECT for all, ASK and CONSTRUCT for every single-operator template"
+                     "nestings n=2%s, per predicate/graph shape, data terms symbolic IRIs and (second variant) symbolic integer literals incl. the falsy one; SELECT for all, ASK and CONSTRUCT for every single-operator template"
                      % (len(singles()), len(graph_queries()), len(pairs()),
                         "" if tier == "quick" else " (and n=4)", "" if tier == "quick" else " and n=3"),
             "outside": "arithmetic/string functions, literals other than booleans produced by expressions, property paths (C11), "
